@@ -119,7 +119,7 @@ type scanner struct {
 }
 
 func (c *Ctx) findScanner(r *report.Result) *scanner {
-	fn := c.P.Func("internal/escape", "InternalEscapeBytes")
+	fn := c.escapeFn()
 	if fn == nil {
 		r.Undecide("escape.InternalEscapeBytes not found")
 		return nil
@@ -681,7 +681,7 @@ func ruleC10b(c *Ctx) []*report.Result {
 	for _, b := range fn.Blocks {
 		for _, ins := range b.Instrs {
 			if call, ok := ins.(*ssa.Call); ok {
-				if f := call.Common().StaticCallee(); f != nil && f.String() == pkgEscape+".InternalEscapeBytes" {
+				if f := call.Common().StaticCallee(); f != nil && f.String() == escapeFnName {
 					esc = call
 				}
 			}
@@ -805,7 +805,7 @@ func (cowHooks) OnCall(c *engine.Ctx, instr ssa.Instruction, callee *ssa.Functio
 // ruleC10f: the escape routine is copy-on-write.
 func ruleC10f(c *Ctx) []*report.Result {
 	r := report.NewResult("C10.f", "the escape routine never writes through its input slice: interpreted path-sensitively (the `copied` flag and the identity of `res` are tracked together), every append/copy/element store reaches only a freshly made output, for both values of breakNewLines and strip", 4)
-	fn := c.P.Func("internal/escape", "InternalEscapeBytes")
+	fn := c.escapeFn()
 	if fn == nil {
 		r.Undecide("escape.InternalEscapeBytes not found")
 		return []*report.Result{r}
@@ -858,7 +858,7 @@ func ruleC10g(c *Ctx) []*report.Result {
 		reach := c.reach(fn, true)
 		esc := false
 		for f := range reach {
-			if f.String() == pkgEscape+".InternalEscapeBytes" {
+			if f.String() == escapeFnName {
 				esc = true
 			}
 		}
